@@ -134,7 +134,7 @@ def worker(kp, job):
 def run(chk):
     b = core.standard_build(chk)
     model = core.Model() if b.modelrun_ok else None
-    full = chk.tier == 'thorough' or bool(b.drift) or not b.proof_ok
+    full = chk.tier == 'thorough' or bool(b.drift) or not b.proof_ok or not b.modelrun_ok
     n = core.budget(chk, full, 80, 500)
     chk.rule = ('generated **kern documents (two thirds kern-only, one third mixed and exported with spine_types=[**kern]; with / '
                 'without opening barline, pickup, final barline; splits, comments; every 10th with signatures in some spines only) x '
